@@ -33,9 +33,9 @@ def main():
     out['suite_with_change'] = o.strip()
     rc1, o1 = sh('/venv/bin/python _seed/demo.py', cwd=wt, env=env)
     out['demo_with_change_rc'] = rc1
-    sh('git diff -- armulator > /tmp/_seed_patch.diff && git checkout -- armulator', cwd=wt)
+    sh('git diff -- armulator > /tmp/_seed_patch_%s.diff' % sid + ' && git checkout -- armulator', cwd=wt)
     rc0, o0 = sh('/venv/bin/python _seed/demo.py', cwd=wt, env=env)
-    sh('git apply /tmp/_seed_patch.diff', cwd=wt)
+    sh('git apply /tmp/_seed_patch_%s.diff' % sid + '', cwd=wt)
     out['demo_original_rc'] = rc0
     confirmed = ' passed' in out['suite_with_change'] and 'failed' not in out['suite_with_change'] and rc1 != 0 and rc0 == 0
     out['confirmed'] = confirmed
